@@ -201,6 +201,22 @@ def check_class(name, cls, tier, rng, extra=None, event_time=None, history=True)
             r = float(np.max(np.abs(res))) / max(1.0, float(np.max(np.abs(rhs_c))))
             if not r <= tol:
                 fails.append(f'solve_system(factor={factor}, t={t}): relative defect {r:.2e} > {tol:.1e}')
+            elif name in LINEAR and t == times[0]:
+                # linear classes: the contract does not depend on the magnitude of the data (tolerances of the solvers are RELATIVE ones): the same
+                # system with right-hand side and initial guess scaled by s is solved to the same relative defect
+                for scale in (1e-12, 1e6):
+                    cases += 1
+                    try:
+                        rhs_s, guess_s = P.dtype_u(rhs), P.dtype_u(guess)
+                        rhs_s[...] = scale * rhs_c
+                        guess_s[...] = scale * guess_c
+                        sol_s = P.solve_system(rhs_s, factor, guess_s, t)
+                        res_s = np.asarray(sol_s) - factor * np.asarray(impl_part(P.eval_f(sol_s, t))) + factor * np.asarray(impl_part(P.eval_f(0 * sol_s, t))) - scale * rhs_c
+                        r_s = float(np.max(np.abs(res_s))) / float(np.max(np.abs(scale * rhs_c)))
+                        if not r_s <= tol:
+                            fails.append(f'solve_system(factor={factor}) with data scaled by {scale:g}: relative defect {r_s:.2e} > {tol:.1e} (unscaled: {r:.2e})')
+                    except Exception as e:
+                        fails.append(f'solve_system(factor={factor}) with data scaled by {scale:g} raised {type(e).__name__}: {str(e)[:60]}')
     # history: consecutive solves on the SAME problem object whose factors differ only slightly (anything kept from the previous solve -- a
     # factorisation, a preconditioner, an initial guess -- must not leak into the next one)
     for base in ((1e-6, 1e-1) if tier == 'quick' else (1e-6, 1e-3, 1e-1, 1.0)) if history else ():
